@@ -234,7 +234,7 @@ func init() {
 			"derived views (GetNoteStart, GetNoteEnd, GetChannel, and the wrappers GetMetaKey, GetMetaMeter) are checked for agreement with their base, not for exclusivity",
 			"sampled FF tt strings keep the embedded length VLQ at most 3 bytes: String() allocates the declared text length and the property is about panics, not allocation",
 		},
-		Require: []string{"strings_midi", "strings_smf", "meta_strings", "strings_accepted_by_an_accessor", "cat:midi:channel", "cat:midi:syscommon", "cat:midi:realtime", "cat:midi:sysex", "cat:midi:unknown", "cat:smf:meta", "patterned_long_strings", "byte_substitution_strings"},
+		Require: []string{"every_length_strings", "strings_midi", "strings_smf", "meta_strings", "strings_accepted_by_an_accessor", "cat:midi:channel", "cat:midi:syscommon", "cat:midi:realtime", "cat:midi:sysex", "cat:midi:unknown", "cat:smf:meta", "patterned_long_strings", "byte_substitution_strings"},
 		Run:     runC08,
 	})
 }
@@ -436,6 +436,39 @@ func runC08(c *mon.Ctx) {
 			c.Eval(n - 1)
 		}
 	})
+	// every length: sysex messages F0 <n data bytes> F7 for every n up to 16500 (thorough: 70000), and the
+	// other long message forms (unterminated F0, F7 escape, text meta, sequencer data) at every 5th length:
+	// string forms are built in buffers whose sizes have thresholds of their own
+	maxLen := c.N(16_500, 70_000)
+	c.Each("every-length", maxLen/50+1, func(i int64, r *mon.Rand) {
+		fill := byte(r.Intn(128))
+		for n := int(i) * 50; n < int(i+1)*50 && n <= int(maxLen); n++ {
+			m := make([]byte, n+2)
+			m[0] = 0xF0
+			for j := 1; j <= n; j++ {
+				m[j] = fill
+			}
+			m[n+1] = 0xF7
+			c.Count("cat:midi:"+classifyMidi(c, m), 1)
+			c.Count("cat:smf:"+classifySMF(c, m), 1)
+			c.Count("every_length_strings", 2)
+			if n%5 == int(i)%5 {
+				for _, alt := range [][]byte{m[:n+1], append([]byte{0xF7}, m[1:n+1]...), appendVLQ([]byte{0xFF, 0x01}, uint32(n)), appendVLQ([]byte{0xFF, 0x7F}, uint32(n))} {
+					if alt[0] == 0xFF {
+						alt = append(alt, m[1:n+1]...)
+					}
+					c.Count("cat:smf:"+classifySMF(c, alt), 1)
+					classifyMidi(c, alt)
+					c.Count("every_length_strings", 2)
+				}
+			}
+		}
+		c.Count("strings_smf", 50)
+		c.Count("strings_midi", 50)
+		c.Eval(49)
+		c.DistinctBytes([]byte(fmt.Sprint("every-length", i)))
+	})
+
 	// text-like meta events whose declared length is the top of the 32-bit range (5-byte VLQs, values that
 	// wrap when an offset is added). The library allocates the declared length (4 GB of untouched memory
 	// per call, 1..16 s each here), so these run in the thorough tier only, in one worker, and only when
